@@ -704,7 +704,9 @@ class Dependency(object):
                 if result.add_reason('missing_file_dep', dep, 'error'):
                     return result
             else:
-                if state is None or check_modified(dep, file_stat, state):
+                if (state is None
+                        or (previous_set is not None and dep not in previous_set)
+                        or check_modified(dep, file_stat, state)):
                     changed.append(dep)
         task.dep_changed = changed
 
